@@ -71,6 +71,43 @@ def run(chk, tier):
                             "%s:%d" % (a["file"], a["line"]))
                 elif re.search(r"\bf(64|32)\b", f["ty"]):
                     chk.ok("R19.2", "%s.%s" % (key, f["name"]))
+    # R19.6 representation attributes and R19.7 what may be left out
+    chk.rule("R19.6", "every enum of the closure keeps serde's externally tagged representation (no untagged / tag / content): the variant is recoverable from the data in JSON "
+                      "and by index in bincode (untagged needs deserialize_any, which bincode does not have, and merges variants with the same payload shape)")
+    chk.rule("R19.7", "only values the compiler cannot put into a program are left out of the serialized form: the skipped variants are exactly the reviewed run-time-only ones")
+    RUNTIME_ONLY = {
+        "rscel::types::cel_value::CelValue::Message": "a protobuf message exists only as a bound value",
+        "rscel::types::cel_value::CelValue::Enum": "a protobuf enum value comes from a bound message or a bound descriptor",
+        "rscel::types::cel_value::CelValue::Dyn": "a user object exists only as a bound value",
+    }
+    for a in adts:
+        cont = " ".join(a["attrs"])
+        m_ = re.search(r"serde\([^)]*\b(untagged|tag\s*=|content\s*=)", cont)
+        if a["kind"] == "Enum":
+            if m_:
+                chk.bad("R19.6", a["path"], "%s is serialized %s: variants with the same payload shape collapse into the first one when read back (e.g. every string-carrying error class becomes one), "
+                                            "and positional formats cannot read it at all" % (a["path"], m_.group(1).strip(" =")), a["file"])
+            else:
+                chk.ok("R19.6", a["path"], "externally tagged")
+        for v in a["variants"]:
+            if a["kind"] != "Enum":
+                continue
+            key = "%s::%s" % (a["path"], v["name"])
+            if skipped(v["attrs"]):
+                if key in RUNTIME_ONLY:
+                    chk.ok("R19.7", key, RUNTIME_ONLY[key])
+                else:
+                    chk.bad("R19.7", key, "%s is left out of the serialized form, but the compiler can put such a value into a program (folded constant or instruction): "
+                                          "serializing that program fails or drops it" % key, a["file"])
+    cv = [a for a in adts if a["path"] == "rscel::types::cel_value::CelValue"]
+    if cv:
+        ser = [v["name"] for v in cv[0]["variants"] if not skipped(v["attrs"])]
+        need = ["Int", "UInt", "Float", "Bool", "String", "Bytes", "List", "Map", "Null", "Ident", "Type", "TimeStamp", "Duration", "ByteCode", "Err"]
+        for n_ in need:
+            if n_ in ser:
+                chk.ok("R19.7", "CelValue::%s serialized" % n_)
+            else:
+                chk.bad("R19.7", "CelValue::%s serialized" % n_, "CelValue::%s can be a folded constant / instruction operand but is not part of the serialized form" % n_, cv[0]["file"])
     # R19.5 declared codecs: the reviewed table of every non-default codec in the closure (a new / changed codec must be reviewed:
     # a narrower range makes serialization fail, an asymmetric hand-written codec reads back a different value)
     chk.rule("R19.5", "the only non-default codecs in Program's serde closure are the reviewed ones: TimeStamp = chrono ts_milliseconds (both directions), "
